@@ -454,6 +454,20 @@ func requirement(w *World, d *Deployed, c *CallInfo) wReq {
 						return wReq{known: true, alts: [][]util.Uint160{wAlt(h)}}
 					}
 				}
+				// third level and deeper: the new owner together with the owner or
+				// admin of the directly enclosing name, as long as that one is
+				// registered and running (whether the name itself was registered
+				// before and has lapsed makes no difference)
+				if i := strings.IndexByte(string(name), '.'); i > 0 && strings.Count(string(name), ".") >= 2 && !strings.HasSuffix(string(name), ".") {
+					parent := string(name)[i+1:]
+					if _, err := w.readNoHook(d.Hash, "properties", parent); err == nil {
+						if pr, ok := nameAuth(parent); ok {
+							if h, ok := argHash160(c.Args[1]); ok {
+								return and(pr, h)
+							}
+						}
+					}
+				}
 			}
 		}
 	case "processing", "proxy":
